@@ -85,7 +85,7 @@ def ctor_case(rng):
 
 def cases(rng, tier):
     out = []
-    per = 10 if tier == 'quick' else 300
+    per = 40 if tier == 'quick' else 400
     for op in gen_ops.OPS_BASIC:
         for _ in range(per):
             out.append(op_case(rng, op))
